@@ -13,5 +13,5 @@ CONSTANTS
 INIT Init
 NEXT Next
 INVARIANTS TypeOK LaxSuperset LaxOnlyDocumented LaxPropagates AncestorDepth LaxIsLocal StrictEqUpstream DiffsAreDiffs
-           Rejected BenignAccepted RoundTrip RawContentKeeps Export
+           Rejected BenignAccepted RoundTrip LengthRoundTrip LengthFormsRejected RawContentKeeps Export
 CHECK_DEADLOCK FALSE
